@@ -131,6 +131,7 @@ fn fresh(k: str, n: int) -> int { let l: [int] = []; l.push(n); let o = new { ? 
 fn lam_try(x: int) -> int { try { let f = fn() -> int { 1 }; for i in 0..3 { if i + x > 1 { return x + f(); } } throw("neg"); } catch e { return 0 - 1; } }
 fn after_lam_try(x: int) -> int { let r = lam_try(x); try { checked(x * 20); r += 1000; } catch e { r += 100; } r }
 fn describe(s: str, limit: int) -> str { "total: " + try { let sum = 100 + try { s.parse_int() } catch e { 0 }; if sum > limit { throw("over limit"); } sum.to_string() } catch e { "n/a" } }
+fn pick(_: int, x: int, _y: str) -> int { x }
 fn early(x: int) -> int { let y = 100 + if x > 0 { return x; } else { 1 }; y }
 fn nested_call(a: int, b: int) -> int { sub(b, a) * 2 + enc3(a, b, 0) }
 fn fact(n: int) -> int { if n <= 1 { 1 } else { n * fact(n - 1) } }
@@ -310,6 +311,8 @@ FUNCS = {
     # an inner try (entered under a pending operand) has ended when the outer handler fires: the state restored is the
     # outer one's (handler labels and their recorded states are popped together)
     "describe": (["str", "int"], "str", lambda a, g: ok(S("total: n/a")) if 100 > a[1][1] else ok(S("total: 100")), ()),
+    # a parameter named `_` still takes its argument: the parameters after it receive theirs
+    "pick": (["dig", "dig2", "str"], "int", lambda a, g: ok(a[1]), ()),
     "lam_try": (["dig"], "int", lambda a, g: ok(I(a[0][1] + 1)) if a[0][1] >= 0 else ok(I(-1)), ()),
     "after_lam_try": (["dig"], "int", lambda a, g: ok(I(a[0][1] + 1 + (100 if a[0][1] >= 1 else 1000))), ()),
     "fresh": (["str", "dig"], "int", lambda a, g: ok(I(1000 + 100 + 20 + a[1][1])), ()),
